@@ -22,7 +22,7 @@ class Env:
                             checker_cmd="make -C coq/fs (coq_makefile, full .vo) ; coqc %s ; Print Assumptions" % propfile,
                             theorems=self.gate["theorems"], axioms=self.gate["axioms"], coqchk=self.gate.get("coqchk", "quick tier: not run"),
                             trusted_base=V.TRUSTED_BASE_COMMON + [
-                                "modelled (hand-written Gallina transcription, coq/fs/Fs*.v): blockdevice.rs cache, fat/volume.rs, fat/bpb.rs, fat/info.rs, fat/ondiskdirentry.rs, filesystem/{files,directory,filename,timestamp,handles}.rs, volume_mgr.rs; RefCell = boolean lock; heapless::Vec = list; TimeSource/BlockDevice = harness oracles (clock formula, fault schedule by device-call index, failed reads scribble 0xAA)",
+                                "modelled (hand-written Gallina transcription, coq/fs/Fs*.v): blockdevice.rs cache, fat/volume.rs, fat/bpb.rs, fat/info.rs, fat/ondiskdirentry.rs, filesystem/{files,directory,filename,timestamp,handles}.rs, volume_mgr.rs; coq/fs/FsExt.v: VolumeManager::iterate_dir_lfn (walk with raw slots feeding the closure of the lfn group's LfnModel), the RAII wrappers Volume / Directory / File of lib.rs, filesystem/directory.rs, filesystem/files.rs (forwarders = the raw operation; Drop = close with the result discarded; change_dir; the expect()ing queries); RefCell = boolean lock; heapless::Vec = list; TimeSource/BlockDevice = harness oracles (clock formula, fault schedule by device-call index, failed reads scribble 0xAA)",
                                 "spec-side artefacts that are ours: gen/fatimg.py formatter, the deciders in coq/fs/Spec*.v"])
         for pb in self.gate["problems"]:
             run.violation("proof obligation: " + pb, "theorem/obligation no longer checks:\n" + pb, no_input=True)
@@ -46,13 +46,22 @@ class Env:
         dev = img.write(path)
         return path, dev
 
-    def add_script(self, name, img_path, limits, ops, id_offset=5000, faults=(), meta=None):
+    RAII_EVERY = 3     # every third script also runs through the RAII wrappers (same ops, same model trace expected)
+
+    def add_script(self, name, img_path, limits, ops, id_offset=5000, faults=(), meta=None, raii=None):
+        """raii=None: the script runs through the raw API and, for every RAII_EVERY-th script, a twin is added that
+        issues the same operations through the wrappers Volume / Directory / File (`# RAII` header; the model side
+        is the same: a wrapper method IS the raw call it forwards to, FsExt.v); raii=True/False: exactly that."""
         self.counter = getattr(self, "counter", 0) + 1
-        name = "%s-%d" % (name, self.counter)
+        base = name
+        name = "%s-%d%s" % (name, self.counter, "w" if raii else "")
         path = os.path.join(self.tmp, name + ".script")
-        fsgen.write_script(path, img_path, limits, ops, id_offset, faults)
-        self.scripts.append(dict(name=name, path=path, img=img_path, limits=limits, ops=ops, id_offset=id_offset, faults=list(faults), meta=meta))
-        return self.scripts[-1]
+        fsgen.write_script(path, img_path, limits, ops, id_offset, faults, raii=bool(raii))
+        sc = dict(name=name, path=path, img=img_path, limits=limits, ops=ops, id_offset=id_offset, faults=list(faults), meta=meta, raii=bool(raii))
+        self.scripts.append(sc)
+        if raii is None and self.RAII_EVERY and self.counter % self.RAII_EVERY == 0:
+            self.add_script(base, img_path, limits, ops, id_offset, faults, meta, raii=True)
+        return sc
 
     def run_one(self, sc, writes=False, final=False):
         m = subprocess.run([self.model, "run", sc["path"]], stdout=subprocess.PIPE, text=True, timeout=600).stdout
@@ -146,7 +155,7 @@ class Env:
                 cand = ops[:i] + ops[i + step:]
                 if not cand:
                     break
-                c = self.add_script("%s-shr%d" % (sc["name"], n), sc["img"], sc["limits"], cand, sc["id_offset"], sc["faults"], sc.get("meta"))
+                c = self.add_script("%s-shr%d" % (sc["name"], n), sc["img"], sc["limits"], cand, sc["id_offset"], sc["faults"], sc.get("meta"), raii=bool(sc.get("raii")))
                 self.scripts.pop()
                 n += 1
                 self.run_one(c)
@@ -164,7 +173,7 @@ class Env:
         os.makedirs(d, exist_ok=True)
         base = os.path.join(d, "%s-%s" % (self.run.tier, sc["name"]))
         shutil.copy(sc["img"], base + ".img")
-        fsgen.write_script(base + ".script", base + ".img", sc["limits"], sc["ops"], sc["id_offset"], sc["faults"])
+        fsgen.write_script(base + ".script", base + ".img", sc["limits"], sc["ops"], sc["id_offset"], sc["faults"], raii=bool(sc.get("raii")))
         txt = ["replay: ./check %s --replay %s.script   (or: build/modelrun-fs run %s.script ; harness/target/debug/fsrun %s.script)" % (self.run.pid, base, base, base),
                "script:", open(base + ".script").read()]
         img_lines = sum(1 for _ in open(sc["img"]))
@@ -181,8 +190,10 @@ class Env:
                     path = l.split("--replay ")[1].split()[0]
                     break
         lim, off, faults, img, ops = (1, 4, 4), 5000, [], None, []
+        raii = False
         for l in open(path):
             t = l.split()
+            if t[:2] == ["#", "RAII"]: raii = True
             if not t or t[0] == "#": continue
             if t[0] == "CFG": lim = (int(t[1]), int(t[2]), int(t[3])); off = int(t[4])
             elif t[0] == "FAULTS": faults = [int(x) for x in t[1:]]
@@ -192,7 +203,7 @@ class Env:
         mbr = dev.get(0, bytes(512))
         slot = next((i for i in range(4) if mbr[446 + 16 * i + 4] != 0), 0)
         meta = dict(geo="replay", dev0=dev, slot=slot, spc=1)
-        return self.add_script("replay", img, lim, ops, off, faults, meta)
+        return self.add_script("replay", img, lim, ops, off, faults, meta, raii=raii)
 
     def report_disagreements(self, dis, theorems, what="layer-B model vs implementation"):
         for sc, d, dobs in dis[:2]:
@@ -217,6 +228,7 @@ class Env:
                 nontrivial += 1
         cov.update(evaluations=len(self.scripts), distinct_nontrivial=nontrivial, rule=rule,
                    traces_validated_against_impl=len(self.scripts),
+                   scripts_issued_through_raii_wrappers=sum(1 for sc in self.scripts if sc.get("raii")),
                    samples=[dict(script=sc["name"], geometry=(sc.get("meta") or {}).get("geo"), limits=sc["limits"], ops=sc["ops"][:12]) for sc in self.scripts[:3]],
                    input_distribution=dict(ops_total=self.stats["ops"], device_calls=self.stats["devcalls"], device_writes=self.stats["devwrites"],
                                            callbacks=self.stats["callbacks"], results=dict(self.errkinds), op_kinds=dict(self.opkinds), geometries=dict(self.geos),
